@@ -482,34 +482,118 @@ Definition conv_table : list (list cty * cty) :=
 (* ------------------------------------------------------------------ function_ref *)
 
 (* callables: 0 lambda capturing a call counter by reference, 1 function pointer, 2 functor object with an
-   accumulator, 3 nullptr, 4 null function pointer.  function_ref = application of the referenced callable. *)
-Record fst_ := mkf { f_calls : Z; f_acc : Z; f_bound : option nat }.
-Definition finit : fst_ := mkf 0 0 None.
-Inductive fop := FBind (k : nat) | FCall (a b : Z) | FCopyCall (a b : Z) | FBool.
+   accumulator, 3 nullptr, 4 null function pointer.  function_ref = application of the referenced callable.
+   Two references: the source [f_bound] (a named, non-const object whose storage is re-used by later binds) and a
+   copy [f_copy] made from it; function_ref(const function_ref&) copies callable_ and invoker_, so the copy keeps
+   referring to the callable the source referred to WHEN THE COPY WAS MADE. *)
+Record fst_ := mkf { f_calls : Z; f_acc : Z; f_bound : option nat; f_copy : option nat }.
+Definition finit : fst_ := mkf 0 0 None None.
+Inductive fop :=
+| FBind (k : nat) | FCall (a b : Z) | FCopyCall (a b : Z) | FBool
+| FCopy (m : nat)          (* copy-construct from the source: 0 non-const lvalue, 1 const lvalue, 2 rvalue *)
+| FCallC (a b : Z) | FBoolC (* through the stored copy *)
+| FDrop.                   (* the source object is destroyed (its storage is overwritten) *)
 Local Open Scope Z_scope.
 Definition fapply (st : fst_) (k : nat) (a b : Z) : fst_ * Z :=
   match k with
-  | 0%nat => let c := f_calls st + 1 in (mkf c (f_acc st) (f_bound st), a + b * c)
+  | 0%nat => let c := f_calls st + 1 in (mkf c (f_acc st) (f_bound st) (f_copy st), a + b * c)
   | 1%nat => (st, a - 2 * b)
-  | _ => let acc := f_acc st + a in (mkf (f_calls st) acc (f_bound st), acc * 3 + b)
+  | _ => let acc := f_acc st + a in (mkf (f_calls st) acc (f_bound st) (f_copy st), acc * 3 + b)
   end.
 Definition fcallable (k : nat) : bool := Nat.ltb k 3.
+Definition fcall_via (st : fst_) (target : option nat) (a b : Z) : fst_ * list tok :=
+  match target with
+  | Some k => if fcallable k then let (st', r) := fapply st k a b in (st', [TZ r]) else (st, [tag "null"])
+  | None => (st, [tag "skip"])
+  end.
+Definition fbool_via (st : fst_) (target : option nat) : fst_ * list tok :=
+  match target with
+  | Some k => (st, [tbool (fcallable k)])
+  | None => (st, [tag "skip"])
+  end.
 Definition fexec (st : fst_) (op : fop) : fst_ * list tok :=
   match op with
-  | FBind k => if Nat.ltb k 5 then (mkf (f_calls st) (f_acc st) (Some k), []) else (st, [tag "skip"])
-  | FCall a b | FCopyCall a b =>
-      match f_bound st with
-      | Some k => if fcallable k then let (st', r) := fapply st k a b in (st', [TZ r]) else (st, [tag "null"])
-      | None => (st, [tag "skip"])
-      end
-  | FBool => match f_bound st with
-             | Some k => (st, [tbool (fcallable k)])
-             | None => (st, [tag "skip"])
-             end
+  | FBind k => if Nat.ltb k 5 then (mkf (f_calls st) (f_acc st) (Some k) (f_copy st), []) else (st, [tag "skip"])
+  | FCall a b | FCopyCall a b => fcall_via st (f_bound st) a b
+  | FBool => fbool_via st (f_bound st)
+  | FCopy m => match f_bound st with
+               | Some k => if Nat.ltb m 3 then (mkf (f_calls st) (f_acc st) (f_bound st) (Some k), []) else (st, [tag "skip"])
+               | None => (st, [tag "skip"])
+               end
+  | FCallC a b => fcall_via st (f_copy st) a b
+  | FBoolC => fbool_via st (f_copy st)
+  | FDrop => (mkf (f_calls st) (f_acc st) None (f_copy st), [])
   end.
 Definition fobs (st : fst_) (res : list tok) : list tok := res ++ [tag "C"; TZ (f_calls st); TZ (f_acc st)].
 Fixpoint frun (st : fst_) (ops : list fop) : list (list tok) :=
   match ops with
   | [] => []
   | op :: ops' => let (st', res) := fexec st op in fobs st' res :: frun st' ops'
+  end.
+
+(* ------------------------------------------------------------------ self-referential nodes *)
+
+(* struct Node { P<Node> next; };  with P = unique_ptr (CHU) or shared_ptr (CHS), two roots [head] and [aux].
+   Every node has exactly one owner at operation boundaries, so the heap is two disjoint chains, written as the
+   lists of node ids from the root; destroying a chain destroys its nodes front to back (~Node runs, then the
+   member [next] is destroyed).  Each operation is what the unique_ptr / shared_ptr member functions do when the
+   SOURCE or the TARGET handle is a member of the pointee of the other one:
+     move assignment  d = std::move(s):  p = s.release(); then the old pointee of d is deleted; then d = p. *)
+Record cst := mkc { c_hd : list nat; c_aux : list nat; c_nxt : nat; c_log : list nat }.
+Definition cinit : cst := mkc [] [] 0 [].
+Inductive cop :=
+| CPush        (* n = new Node; n->next = std::move(head); head = std::move(n) *)
+| CPushAux     (* the same on aux *)
+| CAppend      (* tail->next = P(new Node)   (head = ... when the chain is empty) *)
+| CPop         (* head = std::move(head->next) *)
+| CPop2        (* head = std::move(head->next->next) *)
+| CPopR        (* unique only: head.reset(head->next.release()) *)
+| CPopC        (* shared only: head = head->next   (copy assignment from a member of the pointee) *)
+| CCutTail     (* head->next.reset()  /  head->next = nullptr *)
+| CSplit       (* aux = std::move(head->next) *)
+| CJoin        (* head->next = std::move(aux) *)
+| CSwapAux     (* head.swap(aux) *)
+| CSwapTail    (* head->next.swap(aux) *)
+| CDetach      (* unique only: n = head.get(); head.swap(n->next); aux.reset(n->next.release())   (swap(head, head->next)) *)
+| CMoveHead    (* head = std::move(aux) *)
+| CSelfNext    (* head->next = std::move(head->next) *)
+| CClear       (* head.reset() / head = nullptr *)
+| CClearAux.
+Definition cvalid (shared : bool) (st : cst) (op : cop) : bool :=
+  match op with
+  | CPush | CPushAux | CAppend | CSwapAux | CMoveHead | CClear | CClearAux => true
+  | CPop | CCutTail | CSplit | CJoin | CSwapTail | CSelfNext => match c_hd st with [] => false | _ => true end
+  | CPop2 => match c_hd st with _ :: _ :: _ => true | _ => false end
+  | CPopR | CDetach => negb shared && match c_hd st with [] => false | _ => true end
+  | CPopC => shared && match c_hd st with [] => false | _ => true end
+  end.
+Definition cexec (st : cst) (op : cop) : cst :=
+  let hd := c_hd st in let aux := c_aux st in let n := c_nxt st in let lg := c_log st in
+  match op with
+  | CPush => mkc (n :: hd) aux (S n) lg
+  | CPushAux => mkc hd (n :: aux) (S n) lg
+  | CAppend => mkc (hd ++ [n]) aux (S n) lg
+  | CPop | CPopR | CPopC => match hd with h :: t => mkc t aux n (lg ++ [h]) | [] => st end
+  | CPop2 => match hd with h1 :: h2 :: t => mkc t aux n (lg ++ [h1; h2]) | _ => st end
+  | CCutTail => match hd with h :: t => mkc [h] aux n (lg ++ t) | [] => st end
+  | CSplit => match hd with h :: t => mkc [h] t n (lg ++ aux) | [] => st end
+  | CJoin => match hd with h :: t => mkc (h :: aux) [] n (lg ++ t) | [] => st end
+  | CSwapAux => mkc aux hd n lg
+  | CSwapTail => match hd with h :: t => mkc (h :: aux) t n lg | [] => st end
+  | CDetach => match hd with h :: t => mkc t [h] n (lg ++ aux) | [] => st end
+  | CMoveHead => mkc aux [] n (lg ++ hd)
+  | CSelfNext => st
+  | CClear => mkc [] aux n (lg ++ hd)
+  | CClearAux => mkc hd [] n (lg ++ aux)
+  end.
+Definition cstep (shared : bool) (st : cst) (op : cop) : cst * list tok :=
+  if cvalid shared st op then (cexec st op, []) else (st, [tag "skip"]).
+Definition cend (st : cst) : cst := mkc [] [] (c_nxt st) (c_log st ++ c_hd st ++ c_aux st).
+Definition cobs (st st' : cst) (res : list tok) : list tok :=
+  res ++ [tag "D"] ++ map tnat (skipn (length (c_log st)) (c_log st')) ++
+  [tag "L"; tnat (length (c_hd st') + length (c_aux st')); tag "H"] ++ map tnat (c_hd st') ++ [tag "A"] ++ map tnat (c_aux st').
+Fixpoint crun (shared : bool) (st : cst) (ops : list cop) : list (list tok) :=
+  match ops with
+  | [] => [cobs st (cend st) [tag "end"]]
+  | op :: ops' => let (st', res) := cstep shared st op in cobs st st' res :: crun shared st' ops'
   end.
